@@ -63,12 +63,19 @@ def run(cmd, env=None, timeout=600, cwd=None, stdin=None):
         return -999, (ex.stdout or b'').decode('utf-8', 'replace'), (ex.stderr or b'').decode('utf-8', 'replace') + '\nTIMEOUT'
 
 
+_bind_lock = __import__('threading').Lock()
+
+
 def gen_bindings(work):
-    out = work.path('bind')
-    rc, so, se = run([sys.executable, os.path.join(VERIF, 'spec', 'gen_bindings.py'), out])
-    if rc != 0:
-        raise HarnessError('gen_bindings failed: ' + se)
-    return sorted(glob.glob(os.path.join(out, 'bind_*.c')))
+    """Generate the binding TUs once per scratch directory (callers may build variants in parallel)."""
+    with _bind_lock:
+        out = work.path('bind')
+        if not getattr(work, 'bindings', None):
+            rc, so, se = run([sys.executable, os.path.join(VERIF, 'spec', 'gen_bindings.py'), out])
+            if rc != 0:
+                raise HarnessError('gen_bindings failed: ' + se)
+            work.bindings = sorted(glob.glob(os.path.join(out, 'bind_*.c')))
+        return list(work.bindings)
 
 
 def compile_many(work, name, sources, flags, cc='gcc', extra_inc=(), link_flags=(), std='-std=gnu99', repo=None):
@@ -274,7 +281,8 @@ def finish(prop, level, tier, seed, obs, coverage, assumptions, t0, min_evals=1,
             seen_known.setdefault(k['key'], dict(entry=k, keys=[]))['keys'].append(key)
         else:
             unknown.append((key, v))
-    os.makedirs(os.path.join(VERIF, 'evidence'), exist_ok=True)
+    evdir = os.environ.get('VERIF_EVIDENCE_DIR') or os.path.join(VERIF, 'evidence')   # seed tests write their evidence elsewhere
+    os.makedirs(evdir, exist_ok=True)
     cov = dict(coverage)
     cov.setdefault('evaluations', int(obs.stats.get('evals', 0)))
     cov['monitor_processes'] = obs.procs
@@ -290,7 +298,7 @@ def finish(prop, level, tier, seed, obs, coverage, assumptions, t0, min_evals=1,
               assumptions=assumptions, wall_s=round(time.time() - t0, 2), violations=len(unknown))
     if extra:
         ev.update(extra)
-    json.dump(ev, open(os.path.join(VERIF, 'evidence', prop + '.json'), 'w'), indent=1, default=str)
+    json.dump(ev, open(os.path.join(evdir, prop + '.json'), 'w'), indent=1, default=str)
     for kk, info in sorted(seen_known.items()):
         print('KNOWN-FINDING: property=%s %s [%s]' % (prop, info['entry'].get('what', ''), kk))
     rc = 0
